@@ -439,6 +439,24 @@ pub fn run(ctx: &Ctx) {
         }
         ctx.violations(check_strings(l));
     }
+    for n in [5usize, 16, 31, 32, 33, 34, 40, 61, 64, 65, 100, 128, 129, 200, 300] {
+        // n keys with a first value, then the same keys again with a second value (and once more bare)
+        let mut l: Vec<String> = (0..n).map(|i| format!("key{:03}=first", (i * 37) % n)).collect();
+        l.extend((0..n).map(|i| format!("key{:03}=second", (i * 11) % n)));
+        l.extend((0..n).map(|i| format!("key{:03}", i)));
+        t.evals += 1;
+        t.nontrivial += 1;
+        ctx.violations(check_strings(&l));
+        // bare first, valued later
+        let mut l2: Vec<String> = (0..n).map(|i| format!("k{}", i)).collect();
+        l2.extend((0..n).rev().map(|i| format!("k{}=late", i)));
+        t.evals += 1;
+        ctx.violations(check_strings(&l2));
+        // the same through long_attributes (one semicolon-separated string)
+        let joined = l.iter().map(|s| s.as_str()).collect::<Vec<_>>().join(";");
+        t.evals += 1;
+        ctx.violations(check_long(&joined));
+    }
     t.outcome("strings");
     ctx.space("attributes(): every list of <= 2 (3 thorough) raw strings over 8 atoms incl. duplicates and empty keys", lists.len() as u64, "complete");
     ctx.sample(json!({"kind": "strings", "strings": ["k=1", "k=2"]}));
